@@ -8,7 +8,7 @@ def sig_extra(blt, o, r, v): return {}
 def run(chk, ctx):
     chk.cov['rule'] = ("random strict-ranking elections (weighted to solid coalitions barely above k quotas with a strong member holding a pending surplus, and to the batch-defeat rules) (<= 9 eligible candidates) x all rules x arithmetics; for EVERY candidate subset S and every k the "
                        "oracle checks: ballots ranking exactly S first > k quotas + allowance  =>  >= min(k,|S|) members of S elected; scope: final elected set")
-    cc.run(chk, ctx, 'final', ORACLES, 600, 60000, families=['small', 'coalition', 'coalition', 'coalition', 'tie', 'nearquota', 'chain', 'withdrawn'],
+    cc.run(chk, ctx, 'final', ORACLES, 600, 60000, families=['small', 'coalition', 'coalition', 'coalition', 'tie', 'nearquota', 'chain', 'withdrawn', 'hugemult'],
            rules=cd.RULES + cd.RULES + ['wigm', 'meek', 'warren', 'wigm-prf-batch', 'cfer-batch', 'wigm-prf-batch', 'cfer-batch'], tweak=tweak,
            extra=[('directed-batch', 3000, 100000, ['wigm-prf-batch', 'cfer-batch', 'wigm-prf-batch', 'cfer-batch', 'mpls', 'meek', 'wigm', 'meek-prf', 'scotland'], ['coalition']),
                   ('directed-cotie', 400, 20000, ['wigm', 'wigm', 'wigm', 'scotland', 'wigm-prf', 'cfer', 'mpls', 'meek'], ['cotie'])])
